@@ -10,7 +10,11 @@
 EXTENDS Types, Json, IOUtils
 Trace == ndJsonDeserialize(IOEnv.TRACE)
 VARIABLE l
-BoundOf(c, pred) == IF pred = "src" THEN c.t1 ELSE IF pred = "dst" THEN c.t2 ELSE <<"ty", "/any">>
+\* a predicate may have several bound rows (alternatives): a fact conforms when some row admits it
+Rows(c, pred) == IF pred = "src" THEN {c.t1} \cup (IF c.t1b = <<>> THEN {} ELSE {c.t1b})
+                 ELSE IF pred = "dst" THEN {c.t2} \cup (IF c.t2b = <<>> THEN {} ELSE {c.t2b})
+                 ELSE IF pred = "names" THEN {<<"ty", "/name">>} ELSE {<<"ty", "/any">>}
+InBounds(c, pred, k) == \E t \in Rows(c, pred) : Member(t, k)
 Init == l = 1
 Next == /\ l <= Len(Trace) /\ l' = l + 1
         /\ LET c == Trace[l] IN
@@ -19,6 +23,6 @@ Next == /\ l <= Len(Trace) /\ l' = l + 1
            /\ (c.outcome = "ok" =>
                  \A i \in DOMAIN c.stored :
                     /\ (c.stored[i].ok \/ PrintT(<<"MISMATCH", c.id, i, "BOUNDS_VIOLATED", ToJson(c.stored[i])>>))
-                    /\ ((c.stored[i].ok = Member(BoundOf(c, c.stored[i].pred), c.stored[i].arg)) \/ PrintT(<<"DRIFT", c.id, i>>)))
+                    /\ ((c.stored[i].ok = InBounds(c, c.stored[i].pred, c.stored[i].arg)) \/ PrintT(<<"DRIFT", c.id, i>>)))
 Accepted == l = Len(Trace) + 1 => PrintT(<<"CONSUMED", Len(Trace)>>)
 =============================================================================
